@@ -2,7 +2,7 @@
 packet of real encodes (sizes chosen to hit byte-boundary cases of the sequence header and multi-byte leb128 sizes)."""
 import os, sys, json
 from lib.core import *
-from lib import e2e, obs, scn
+from lib import e2e, obs, scn, build, slicer
 
 LEVEL = 'other'
 
@@ -63,10 +63,65 @@ def boundary_obus(pkts_path):
     return cnt
 
 
+LEB_SRC = 'Source/Lib/Encoder/Codec/EbEntropyCoding.c'
+LEB_DEC = 'Source/Lib/Decoder/Codec/EbDecBitstream.c'
+
+
+def leb_correspondence(ck):
+    """The C-level LEB128 models (coq/theories/Leb128C.v) against the real routines: the text of svt_aom_uleb_size_in_bytes /
+    svt_aom_uleb_encode sliced from the working tree and the decoder's EbDecBitstream.c, on boundary + random values and byte strings."""
+    import re
+    hd = os.path.join(CACHE, 'h', 'c02l'); os.makedirs(hd, exist_ok=True)
+    parts = []
+    src = open(os.path.join(REPO, LEB_SRC), errors='replace').read()
+    for cst in ('k_maximum_leb_128_size', 'k_maximum_leb_128_value'):
+        m = re.search(r'^[^\n;{}]*\b%s\b\s*=[^;]*;' % cst, src, flags=re.M)
+        if m:
+            parts.append(m.group(0))
+    for fn in ('svt_aom_uleb_size_in_bytes', 'svt_aom_uleb_encode'):
+        t = slicer.slice_function(LEB_SRC, fn)
+        if t is None:
+            ck.obligation('slice %s from %s' % (fn, LEB_SRC), False, 'definition not found')
+            return
+        parts.append(t)
+    write_if_changed(os.path.join(hd, 'leb_sliced.inc'), '\n'.join(parts) + '\n')
+    ok, log = build.cc(os.path.join(hd, 'leb'), [os.path.join(VERIF, 'harness', 'unit', 'leb_harness.c'), os.path.join(REPO, LEB_DEC)], flags='-I%s -w' % hd)
+    ck.obligation('compile sliced svt_aom_uleb_* + EbDecBitstream.c (LEB128 harness)', ok, log[-400:])
+    okm, mbin, mlog = obs.build_obs('C02L')
+    ck.obligation('extract Leb128C + build driver', okm, mlog[-300:])
+    if not (ok and okm):
+        return
+    nrnd = 3000 if ck.tier == 'quick' else 60000
+    tot = dict(n=0, bad=0, size=0, encode=0, rejected=0, decode=0, decode_len8=0)
+    for seed in ([ck.seed, ck.seed + 101] if ck.tier == 'quick' else [ck.seed + 101 * i for i in range(6)]):
+        rc, out = sh('%s %d %d > %s/cases.txt && %s < %s/cases.txt' % (os.path.join(hd, 'leb'), seed, nrnd, hd, mbin, hd), timeout=900)
+        m = re.search(r'DONE n=(\d+) bad=(\d+) size=(\d+) encode=(\d+) rejected=(\d+) decode=(\d+) decode_len8=(\d+)', out)
+        if not m:
+            ck.obligation('LEB128 correspondence run completed (seed %d)' % seed, False, out[-300:])
+            continue
+        for k_, v_ in zip(('n', 'bad', 'size', 'encode', 'rejected', 'decode', 'decode_len8'), m.groups()):
+            tot[k_] += int(v_)
+        flags = [l for l in open(os.path.join(hd, 'cases.txt')) if 'OVERWRITE' in l or 'ON_ERROR' in l]
+        diffs = [l for l in out.split('\n') if l.startswith('DIFF')]
+        if flags:
+            ck.violation('leb128_write_outside_coded_bytes', 'svt_aom_uleb_encode writes outside the coded bytes / on a refused value: ' + flags[0].strip()[:200],
+                         dict(harness='harness/unit/leb_harness.c', seed=seed, line=flags[0].strip(), sliced=os.path.join(hd, 'leb_sliced.inc')), True)
+        if diffs:
+            # which property does the real code break on this input?  (round trip / minimal size / domain) decided on the C results alone
+            ck.violation('leb128_model_differs', 'the library\'s LEB128 routine and its C-level model (Leb128C.v: c02_c_leb128_roundtrip, c02_c_uleb_encode_accepts_iff, c02_c_uleb_size_minimal) differ: ' + diffs[0][:300],
+                         dict(harness='harness/unit/leb_harness.c', seed=seed, nrnd=nrnd, first_differences=diffs[:10], sliced=os.path.join(hd, 'leb_sliced.inc'),
+                              replay='%s %d %d | %s' % (os.path.join(hd, 'leb'), seed, nrnd, mbin)), True)
+    ck.obligation('LEB128: real routines == C-level model on every case', tot['bad'] == 0 and tot['n'] > 0, 'differences: %d of %d' % (tot['bad'], tot['n']))
+    ck.evals += tot['n']
+    ck.cov['leb128_correspondence'] = dict(cases=tot['n'], size_calls=tot['size'], encode_calls=tot['encode'], encode_refused=tot['rejected'], decode_calls=tot['decode'],
+                                           decode_stopped_at_8_bytes=tot['decode_len8'], generator='size-class boundaries 128^k-1,128^k,128^k+1 for k=0..9 x space 0..11; 2^56-1, 2^56, 2^63, 2^64-1, space SIZE_MAX; random values of every bit length 0..64; decoder on encoder output + random tail at byte offsets 0..7 and on non-encoder byte strings (unterminated runs, over-long zero encodings)')
+
+
 def run(ck):
     ck.trust('Coq 8.16.1 kernel (parser soundness lemmas)', 'the parser is a transcription of the AV1 syntax tables for the OBU header, sequence header and frame-header start (no third-party parser in the sandbox to cross-check it; the library\'s own decoder parses the same streams in C01/C19)',
              'extraction (ExtrOcamlBasic only) + obs/c02.ml', 'harness/scn/svt_scn.c', 'gcc')
-    ck.prove('Properties_C02', extra_modules=['Proofs_C02', 'OBU', 'Leb128'])
+    ck.prove('Properties_C02', extra_modules=['Proofs_C02', 'OBU', 'Leb128', 'Leb128C'])
+    leb_correspondence(ck)
     ok, binp, stamp = e2e.driver(ck)
     okm, mbin, mlog = obs.build_obs('C02')
     ck.obligation('extract + build verified parser', okm, mlog[-300:])
